@@ -108,10 +108,10 @@ def main():
             sh("git -C /repo worktree remove --force %s" % wt)
         caught = {}
         for c in checks:
-            r = sh("/verif/tools/tryseed.sh %s/%s.diff %s quick" % (outdir, name, c))
+            r = sh("VERIF_SEEDOUT=/tmp/seedout-own /verif/tools/tryseed.sh %s/%s.diff %s quick" % (outdir, name, c))
             line = [l for l in r.stdout.split("\n") if l.startswith("  C") or l.startswith("VIOLATION") or l.startswith("OK") or l.startswith("HARNESS")]
             caught[c] = {"exit": r.returncode, "first": (line[0][:300] if line else r.stdout[-300:])}
-            sh("find /verif/replays -name '*.json' -delete")
+            sh("rm -rf /tmp/seedout-own")
         results[name] = {"file": file, "pinned_package_tests_pass": suite_ok, "checks": caught}
         print(name, "suite_pass=%s" % suite_ok, {c: v["exit"] for c, v in caught.items()})
         json.dump(results, open(resfile, "w"), indent=1)
